@@ -328,6 +328,10 @@ class Harness:
         trio_payload.__qualname__ = trio_payload.__name__ = "payload_%s" % pid
         return trio_payload
 
+    def started_units_tainted(self):
+        """Services one of whose *superseded* units was started (classes decorated twice, known finding)."""
+        return sorted({getattr(svc, "pid", None) for svc, unit in self.started_units if getattr(svc, "__service_unit__", None) is not unit} - {None})
+
     def make_service(self, pid):
         spec = self.specs[pid]
         cls = SERVICE_CLASSES.get((spec["flavour"], spec.get("svc_class"))) or SERVICE_CLASSES[(spec["flavour"], None)]
